@@ -407,6 +407,7 @@ func runC04(c *core.Ctx) {
 
 	c04ManyPending(c)
 	c04TrackedLifetime(c)
+	c04AllPendingComplete(c)
 	c.Group("middleware-acs")
 	for _, idpInit := range []bool{false, true} {
 		for nTracked := 0; nTracked <= 2; nTracked++ {
@@ -556,7 +557,9 @@ func runC04(c *core.Ctx) {
 // Response) and the browser delivers it with the authentic cookie.
 func c04TrackedLifetime(c *core.Ctx) {
 	c.Group("middleware-request-outstanding-for-the-tracking-lifetime-only")
-	for _, cf := range []c17Cfg{{binding: "redirect", scheme: "https", key: "sp2048", rsf: "nil"}, {binding: "post", scheme: "http", key: "spec256", rsf: "nil"}} {
+	for _, cf := range []c17Cfg{{binding: "redirect", scheme: "https", key: "sp2048", rsf: "nil"}, {binding: "post", scheme: "http", key: "spec256", rsf: "nil"},
+		// (with a relay-state function of the application's: the index is its choice, the request is outstanding all the same)
+		{binding: "redirect", scheme: "https", key: "sp2048", rsf: "fixed"}, {binding: "post", scheme: "https", key: "spec256", rsf: "fixed"}} {
 		for notch := 0; notch < 4; notch++ {
 			for _, idpInit := range []bool{false, true} {
 				cf, notch, idpInit := cf, notch, idpInit
@@ -607,6 +610,47 @@ func c04TrackedLifetime(c *core.Ctx) {
 					}
 				})
 			}
+		}
+	}
+}
+
+// c04AllPendingComplete: two or three logins pending in one browser; the IdP answers them one after the other, in every order, and the
+// browser applies the cookies each answer sets before delivering the next. Every one of them was outstanding when it was answered: each is
+// accepted.
+func c04AllPendingComplete(c *core.Ctx) {
+	c.Group("middleware-every-pending-login-completes")
+	for _, cf := range []c17Cfg{{binding: "redirect", scheme: "https", key: "sp2048", rsf: "nil"}, {binding: "post", scheme: "http", key: "spec256", rsf: "fixed"}} {
+		for _, n := range []int{2, 3} {
+			perm(n, func(order []int) {
+				cf, n, order := cf, n, append([]int{}, order...)
+				key := fmt.Sprintf("all-pending-complete/%s/flows=%d/answered-in-order=%v", cf, n, order)
+				c.Case(key, func(t *core.T) {
+					t.NonTrivial()
+					w := newC17World(cf)
+					st := &c17State{jar: map[string]c17Cookie{}, ever: map[string]string{}}
+					for k := 0; k < n; k++ {
+						st.flows = append(st.flows, c17Flow{url: w.urls[k], user: w.users[k]})
+					}
+					var bad []string
+					for k := 0; k < n && len(bad) == 0; k++ {
+						bad = append(bad, c17Start(w, st, k)...)
+					}
+					for _, k := range order {
+						if len(bad) > 0 {
+							break
+						}
+						bad = append(bad, c17Answer(w, st, k)...)
+						bad = append(bad, c17Deliver(w, st, k, st.flows[k].index, "own", w.view(st, "/saml/acs"), "jar")...)
+					}
+					t.Impl(w.impl)
+					t.Compared()
+					t.Outcome(fmt.Sprintf("owner=%q", st.owner))
+					for _, b := range bad {
+						f, d, _ := strings.Cut(b, "|")
+						t.Fail("C04/middleware/all-pending/"+f, "%s: %s", key, d)
+					}
+				})
+			})
 		}
 	}
 }
